@@ -133,8 +133,10 @@ def gen_colvar(r, name, ext_ok=True):
 BIAS_KINDS = ["harmonic", "harmonicWalls", "linear", "histogram", "abf", "metadynamics"]
 
 
-def gen_bias(r, name, cvs):
-    """cvs: list of live colvar dicts; returns None when no suitable variable exists"""
+def gen_bias(r, name, cvs, counters=None):
+    """cvs: list of live colvar dicts; returns None when no suitable variable exists.
+    counters: per-kind number of biases defined so far (colvarmodule::num_biases_types_used_: only grows, cleared by reset);
+    an UNNAMED bias gets the default name <kind in lower case><rank>"""
     kind = r.choice(BIAS_KINDS)
     if kind in ("abf", "metadynamics", "histogram", "harmonicWalls", "linear"):
         cand = [c for c in cvs if c["scalar"] and (c["opts"].get("grid") or kind in ("harmonicWalls", "linear"))]
@@ -144,11 +146,17 @@ def gen_bias(r, name, cvs):
         return None
     n = 1 if (kind == "abf" or r.random() < 0.7) else min(2, len(cand))
     sel = r.sample(cand, n)
+    unnamed = False
+    if counters is not None:
+        counters[kind] = counters.get(kind, 0) + 1
+        if r.random() < 0.4:
+            unnamed = True
+            name = kind.lower() + str(counters[kind])
     if kind == "harmonic" and n == 1 and r.random() < 0.15:
         sel = sel + sel          # `colvars x x`: the same variable twice (children/parents with multiplicity 2)
         n = 2
     names = [c["name"] for c in sel]
-    L = [kind + " {", "  name " + name, "  colvars " + " ".join(names)]
+    L = [kind + " {"] + ([] if unnamed else ["  name " + name]) + ["  colvars " + " ".join(names)]
     if kind == "harmonic":
         cs = []
         for c in sel:
@@ -173,7 +181,8 @@ def gen_bias(r, name, cvs):
     if kind in ("histogram",) and r.random() < 0.3:
         L.append("  stepZeroData on")
     L.append("}")
-    return {"name": name, "kind": kind, "cvs": names, "conf": "\n".join(L) + "\n"}
+    return {"name": name, "kind": kind, "cvs": names, "conf": "\n".join(L) + "\n", "unnamed": unnamed,
+            "rank": counters[kind] if counters is not None else None}
 
 
 def gen_sequence(r, k, length, with_set=True):
@@ -181,6 +190,7 @@ def gen_sequence(r, k, length, with_set=True):
     Returns list of events; each event is a dict with 'op' and what it concerns."""
     ev = []
     cvs, biases = [], []
+    counters = {}
     ncv = nb = 0
     samestep = 1 if r.random() < 0.8 else 0
     for i in range(length):
@@ -190,7 +200,7 @@ def gen_sequence(r, k, length, with_set=True):
             cvs.append(c)
             ev.append({"op": "addcv", "cv": c})
         elif x < 0.45:
-            b = gen_bias(r, "b%d" % nb, cvs)
+            b = gen_bias(r, "b%d" % nb, cvs, counters)
             if b is None:
                 continue
             nb += 1
@@ -206,6 +216,7 @@ def gen_sequence(r, k, length, with_set=True):
             ev.append({"op": "delcv", "name": c["name"], "also": [b["name"] for b in gone]})
         elif x < 0.68:
             cvs, biases = [], []
+            counters.clear()
             ev.append({"op": "reset"})
         elif x < 0.86:
             pos = [(a, V.dyadic(r, -3, 3, 4), V.dyadic(r, -3, 3, 4), V.dyadic(r, -3, 3, 4)) for a in range(1, NATOMS + 1)]
@@ -234,7 +245,7 @@ ENUM_ALPHABET = ["A", "B", "H", "G", "DB", "DV", "R", "S"]
 def enum_sequences(maxlen):
     """ALL sequences up to length maxlen over {A: add variable (distance 1-2, outputTotalForce), B: add variable (distance with
     a fitting group, shares atom 2), H: add harmonic (timeStepFactor 2) on the first live variable, G: add harmonic on every
-    live variable (at most 2), DB: delete the last live bias, DV: delete the first live variable, R: reset, S: step};
+    live variable (at most 2), DB: delete the OLDEST live bias (the harmonic restraints are unnamed), DV: delete the first live variable, R: reset, S: step};
     a sequence whose operation has nothing to act on is dropped (it is not a history); a final step is appended"""
     import itertools
     k = 0
@@ -258,15 +269,16 @@ def enum_sequences(maxlen):
                     if not cvs:
                         ok = False; break
                     sel = cvs[:1] if w == "H" else cvs[:2]
-                    name = "e%s%d" % (w.lower(), nb); nb += 1
-                    conf = "harmonic {\n  name %s\n  colvars %s\n  centers %s\n  forceConstant 2.0\n%s}\n" % (
-                        name, " ".join(c["name"] for c in sel), " ".join(["0.5"] * len(sel)), "  timeStepFactor 2\n" if w == "H" else "")
-                    b = {"name": name, "kind": "harmonic", "cvs": [c["name"] for c in sel], "conf": conf}
+                    nb += 1                      # both kinds are UNNAMED harmonic restraints: default names harmonic<rank>
+                    name = "harmonic%d" % nb
+                    conf = "harmonic {\n  colvars %s\n  centers %s\n  forceConstant 2.0\n%s}\n" % (
+                        " ".join(c["name"] for c in sel), " ".join(["0.5"] * len(sel)), "  timeStepFactor 2\n" if w == "H" else "")
+                    b = {"name": name, "kind": "harmonic", "cvs": [c["name"] for c in sel], "conf": conf, "unnamed": True, "rank": nb}
                     biases.append(b); ev.append({"op": "addbias", "bias": b})
                 elif w == "DB":
                     if not biases:
                         ok = False; break
-                    b = biases.pop(); ev.append({"op": "delbias", "name": b["name"]})
+                    b = biases.pop(0); ev.append({"op": "delbias", "name": b["name"]})     # the OLDEST live bias
                 elif w == "DV":
                     if not cvs:
                         ok = False; break
@@ -277,7 +289,7 @@ def enum_sequences(maxlen):
                 elif w == "R":
                     if not cvs and not biases:
                         ok = False; break
-                    cvs, biases = [], []; ev.append({"op": "reset"})
+                    cvs, biases = [], []; nb = 0; ev.append({"op": "reset"})
                 elif w == "S":
                     nstep += 1
                     ev.append({"op": "step", "pos": [(a, 0.5 * a + 0.25 * nstep, 0.25 * ((a * 7 + nstep) % 5) - 0.5, 0.125 * ((a * 3) % 7) + 0.25 * nstep) for a in range(1, NATOMS + 1)]})
@@ -391,6 +403,11 @@ def last_step_block(text):
         if not w:
             continue
         if w[0] in ("STEP", "ENERGY", "CV", "BIAS", "ATOMF"):
+            if w[0] == "BIAS":
+                # biases are compared by creation order: the default name of an unnamed bias depends on how many biases of its
+                # type were defined before it, deleted ones included
+                nbias = sum(1 for x in obs if x.startswith("BIAS "))
+                l = " ".join(["BIAS", "#%d" % nbias] + w[2:])
             obs.append(l)
         elif w[0] in ("echo", "DEPS", "SCRIPT", "CONFIG"):
             break
@@ -618,6 +635,13 @@ W_U = ("natoms 2\ntemperature 300.0\nnew\nconfig EOF\n" + XE + HARM % ("h", "  w
        "pos 1 0 0 1.0\nstep\ndumpdeps\nscript cv bias h delete\ndumpdeps\npos 1 0 0 1.5\nstep\necho END\n")
 
 
+# N: default names.  Two unnamed harmonic restraints (harmonic1, harmonic2), the older one deleted, a third defined: it must not
+# take the name of the survivor; then the survivor is deleted BY NAME: exactly the third one must remain
+HARM_U = "harmonic {\n  colvars x\n  centers %s\n  forceConstant 2.0\n}\n"
+W_N = ("natoms 2\nnew\nconfig EOF\n" + XZ + HARM_U % "0.0" + HARM_U % "1.0" + "EOF\npos 1 0 0 1.0\nstep\nscript cv bias harmonic1 delete\n"
+       "config EOF\n" + HARM_U % "2.0" + "EOF\ndumpdeps\nscript cv bias harmonic2 delete\ndumpdeps\npos 1 0 0 1.5\nstep\necho END\n")
+
+
 def run_scn(unit, d, text, name="w.scn"):
     p = os.path.join(d, name)
     open(p, "w").write(text)
@@ -676,6 +700,21 @@ def replay_witnesses(run, unit, d, tabs, model):
         if "err=ok" not in (A or [""])[0] or not obs_equal(A, B):
             run.violation(F7 + ":observables", "switching scaledBiasingForce on by script (no map) changes the step results: %s instead of %s" % (A, B),
                           {"kind": "identity", "scenario": W_F7, "reference": W_F7_REF})
+    # N: default names of unnamed biases stay distinct; deletion by name hits the right object
+    rc, o, e = run_scn(unit, d, W_N)
+    dumps = D.parse_deps_blocks(o.split("\n"))
+    run.count("witness:N", True)
+    if "echo END" not in o or len(dumps) != 2:
+        run.violation("witness:N:crash", "the witness of default names does not run (rc=%d): %s" % (rc, (o[-200:] + e[-200:])), {"kind": "scenario", "scenario": W_N})
+    else:
+        n1 = [t for c, t in D.monitor_links(dumps[0]) if c == "N1"]
+        left = [ob["desc"] for ob in dumps[1]["objs"] if ob["cls"] == 0]
+        if n1:
+            run.violation("default-name-collision", "harmonic, harmonic (both unnamed), `cv bias harmonic1 delete`, a third unnamed harmonic: %s" % n1[0],
+                          {"kind": "scenario", "scenario": W_N})
+        elif left != ["bias_harmonic3"]:
+            run.violation("default-name-collision", "after `cv bias harmonic2 delete` the remaining biases are %s instead of [bias_harmonic3]" % left,
+                          {"kind": "scenario", "scenario": W_N})
     # U: user feature referenced by a bias survives the deletion of the bias
     rc, o, e = run_scn(unit, d, W_U)
     dumps = D.parse_deps_blocks(o.split("\n"))
@@ -814,7 +853,24 @@ def check(run):
         prev = {"objs": [], "atoms": {}}
         prev_bad = set()
         tainted = False
+        nops, live_b = [], {}          # naming model: operations, and the unnamed biases believed alive (name -> (kind index, rank))
         for i, (ev, blk) in enumerate(zip(seq["events"], blocks)):
+            if ev["op"] == "addbias":
+                bb = ev["bias"]
+                kidx = BIAS_KINDS.index(bb["kind"])
+                okdef = "CONFIG err=ok" in blk
+                if bb.get("rank") is not None:
+                    nops.append("D %d %d %d" % (kidx, 1 if bb.get("unnamed") else 0, 1 if okdef else 0))
+                    if bb.get("unnamed") and okdef:
+                        live_b[bb["name"]] = (kidx, bb["rank"])
+            elif ev["op"] == "delbias" and ev["name"] in live_b and "SCRIPT err=ok" in blk:
+                nops.append("X %d %d" % live_b.pop(ev["name"]))
+            elif ev["op"] == "delcv" and "SCRIPT err=ok" in blk:
+                for bn in ev.get("also", []):
+                    if bn in live_b:
+                        nops.append("X %d %d" % live_b.pop(bn))
+            elif ev["op"] == "reset":
+                nops.append("R"); live_b = {}
             run.dist("event:" + ev["op"])
             dumps = D.parse_deps_blocks(blk.split("\n"))
             if not dumps:
@@ -856,6 +912,15 @@ def check(run):
                 run.violation(sig, "after event %d (%s) of a define/delete history: %s" % (i, ev["op"], text),
                               {"kind": "scenario", "scenario": scenario(part), "monitor": text})
             prev = cur
+        if final is not None and all("rank" in e["bias"] and e["bias"]["rank"] is not None for e in seq["events"] if e["op"] == "addbias"):
+            # default names: the extracted naming model against the names of the unnamed biases alive in the last dump
+            import re as _re
+            pat = _re.compile(r"^bias_(%s)(\d+)$" % "|".join(k.lower() for k in BIAS_KINDS))
+            explicit = set("bias_" + e["bias"]["name"] for e in seq["events"] if e["op"] == "addbias" and not e["bias"].get("unnamed"))
+            have = sorted("%d:%d" % ([k.lower() for k in BIAS_KINDS].index(m.group(1)), int(m.group(2)))
+                          for m in (pat.match(o["desc"]) for o in final["objs"] if o["cls"] == 0 and o["desc"] not in explicit) if m)
+            mlines.append("NAMES " + " ".join(nops))
+            mexpect.append(("names", " ".join(have), None, {"id": seq["id"], "samestep": seq["samestep"], "events": seq["events"]}, None, None))
         if final is None or seq.get("enum"):
             continue
         # (2) primitive-step correspondence from the reached state
@@ -887,6 +952,12 @@ def check(run):
     if len(mout) != len(mlines):
         run.mismatch("primitive:model-run", {"n": len(mlines)}, "%d cases" % len(mlines), "%d answers (rc=%d) %s" % (len(mout), rc, e[-300:]))
     for ml, mo, ex in zip(mlines, mout, mexpect):
+        if ex[0] == "names":
+            run.count(ml, True)
+            run.dist("model:default-names")
+            if sorted(mo.split()) != sorted(ex[1].split()):
+                run.mismatch("default-names", {"scenario": scenario(ex[3]), "model_case": ml}, "unnamed biases alive: " + ex[1], mo[:200])
+            continue
         if ex[0] == "chk":
             _, pyverdict, cur, part, _, _ = ex
             run.count(ml, True)
